@@ -6,7 +6,6 @@ import (
 	"os/exec"
 	"strconv"
 	"strings"
-	"sync"
 
 	"github.com/ChrisTrenkamp/xsel"
 
@@ -31,29 +30,66 @@ var c13NearDup = []string{
 	"translate('a\tb',' ','_')", "translate('a b',' ','_')", "//b[1]", "//b[ 1 ]", "//b[01]", "//b[1.0]", "(//b)[1]",
 }
 
+type c13Call struct {
+	Text string `json:"text"`
+	Doc  int    `json:"doc"`
+	Ctx  string `json:"ctx"`
+}
+
+func (c c13Call) String() string {
+	return fmt.Sprintf("%q on document %d from %s", c.Text, c.Doc, c.Ctx)
+}
+
+// c13Calls is the menu of the process-fresh histories: the near-duplicate texts
+// on one document, and a few texts from two context nodes of two documents (a
+// cache keyed by something less than the identity of the document or of the
+// context node shows as a call whose outcome depends on the call before it).
+func c13Calls() []c13Call {
+	var out []c13Call
+	for _, t := range c13NearDup {
+		out = append(out, c13Call{t, 0, "/"})
+	}
+	for _, t := range []string{"/*", "//b", "string(/*/*[1])", "count(//node())", "name(..)", ".", "/*/@x", "count(ancestor::node())"} {
+		for d := 0; d < 2; d++ {
+			for _, ctx := range []string{"/", "/0/0", "/0/2"} {
+				out = append(out, c13Call{t, d, ctx})
+			}
+		}
+	}
+	return out
+}
+
 func init() {
-	// xv c13-build-history i j ...: build+execute the texts in this order, print the last outcome
+	// xv c13-build-history i j ...: perform the calls in this order, print the last outcome
 	Sub["c13-build-history"] = func(args []string) int {
-		b, err := impl.Bind(c13Doc(0))
-		if err != nil {
-			fmt.Println("HARNESS", err)
-			return 2
+		calls := c13Calls()
+		var bs [2]*impl.Binding
+		for d := range bs {
+			b, err := impl.Bind(c13Doc(d))
+			if err != nil {
+				fmt.Println("HARNESS", err)
+				return 2
+			}
+			bs[d] = b
 		}
 		out := ""
 		for _, a := range args {
 			i, _ := strconv.Atoi(a)
+			cl := calls[i]
 			func() {
 				defer func() {
 					if r := recover(); r != nil {
 						out = fmt.Sprint("PANIC ", r)
 					}
 				}()
-				g, err := xsel.BuildExpr(c13NearDup[i])
+				g, err := xsel.BuildExpr(cl.Text)
 				if err != nil {
 					out = "build error"
 					return
 				}
-				out = ExecImpl(b, b.Root, &g, nil).String()
+				b := bs[cl.Doc]
+				o := ExecImpl(b, b.ToCur[b.Doc.Resolve(cl.Ctx)], &g, nil)
+				out = fmt.Sprintf("doc%d %s", cl.Doc, o.String())
 			}()
 		}
 		fmt.Println("OUT " + out)
@@ -61,23 +97,24 @@ func init() {
 	}
 }
 
-func c13BuildHistory(c *run.Check) {
-	n := len(c13NearDup)
-	runProc := func(idx ...int) string {
-		var a []string
-		for _, i := range idx {
-			a = append(a, strconv.Itoa(i))
-		}
-		o, err := exec.Command(os.Args[0], append([]string{"c13-build-history"}, a...)...).CombinedOutput()
-		s := strings.TrimSpace(string(o))
-		if err != nil || !strings.HasPrefix(s, "OUT ") {
-			return "PROCESS FAILED: " + s
-		}
-		return s
+func c13RunHistory(idx ...int) string {
+	var a []string
+	for _, i := range idx {
+		a = append(a, strconv.Itoa(i))
 	}
+	o, err := exec.Command(os.Args[0], append([]string{"c13-build-history"}, a...)...).CombinedOutput()
+	s := strings.TrimSpace(string(o))
+	if err != nil || !strings.HasPrefix(s, "OUT ") {
+		return "PROCESS FAILED: " + s
+	}
+	return s
+}
+
+func c13BuildHistory(c *run.Check) {
+	calls := c13Calls()
+	n := len(calls)
 	solo := make([]string, n)
-	run.ParallelW(n, func(_, i int) { solo[i] = runProc(i) })
-	var mu sync.Mutex
+	run.ParallelW(n, func(_, i int) { solo[i] = c13RunHistory(i) })
 	distinct := map[string]bool{}
 	for _, s := range solo {
 		distinct[s] = true
@@ -90,13 +127,11 @@ func c13BuildHistory(c *run.Check) {
 		c.Transitions.Add(1)
 		c.Traces.Add(1)
 		c.Evaluations.Add(2)
-		if got := runProc(i, j); got != solo[j] {
-			c.Violation(map[string]interface{}{"kind": "build-history", "first": c13NearDup[i], "then": c13NearDup[j], "got": got, "alone": solo[j]},
-				fmt.Sprintf("build history: BuildExpr+Exec of %q returns %s in a fresh process but %s after %q was built and executed in the same process", c13NearDup[j], solo[j], got, c13NearDup[i]))
+		if got := c13RunHistory(i, j); got != solo[j] {
+			c.Violation(map[string]interface{}{"kind": "build-history", "first": calls[i], "then": calls[j], "got": got, "alone": solo[j]},
+				fmt.Sprintf("process history: BuildExpr+Exec of %s returns %s in a fresh process but %s after %s was built and executed in the same process", calls[j], solo[j], got, calls[i]))
 		}
-		mu.Lock()
-		mu.Unlock()
 	})
-	c.Set("build_histories_in_fresh_processes", n*(n-1))
-	c.Set("build_history_distinct_outcomes", len(distinct))
+	c.Set("two_call_histories_in_fresh_processes", n*(n-1))
+	c.Set("two_call_history_distinct_outcomes", len(distinct))
 }
